@@ -137,6 +137,7 @@ def parseConfigOp (c : Cfg) (ws : List String) : Option Op :=
   | ["lair_upd", _] => do
     let r ← (← s "growth") |> parseOpt String.toNat?
     pure (.lairUpd r)
+  | ["mig", _, _, _] => some .migrate
   | ["coll_inst"] => some .collInst
   | ["coll_upd", _] => do
     let t ← (← s "take") |> parseOpt String.toNat?
@@ -148,7 +149,7 @@ def configOp (c : Cfg) (ws : List String) : Cfg × String :=
   | none => (c, "bad-op")
   | some op =>
     match step c op with
-    | .ok c' => (c', "ok " ++ showCfg c')
+    | .ok c' => (c', (if ws.head? == some "mig" then "done " else "ok ") ++ showCfg c')
     | .err => (c, "err " ++ showCfg c)
     | .panic => (c, "panic " ++ showCfg c)
 
